@@ -906,7 +906,7 @@ def scen_C03(ctx):
                 'the files on disk are checksummed while all handles are alive and compared with the model image (L_img), the directory is '
                 'copied and the copy later opened and read completely (L_api); in `kill` cases the writer is SIGKILLed right after the call and a '
                 'new process opens the directory; the io-trace hook shows each file being OS-synced after its last buffered write (L_trace); '
-                'a created-only map is covered; distinct = distinct op files')
+                'a created-only map is covered; `handles`: several handles of one map (clone, second lookup, through a cloned FileDb), the flush/sync made through another handle than the updates, also one that flushed before; distinct = distinct op files')
     SY = ['flush', 'syncall', 'syncdata']
 
     def trace_ok(line, kind):
@@ -986,6 +986,33 @@ def scen_C03(ctx):
                                           '(last write seq %s, last sync seq %s)' % (ops[j - 1], missing, last_write, last_sync), ops[:j + 1])
                             break
     parallel(one, range(ctx.scale(60, 400)))
+
+    # `handles`: several handles of ONE map (a clone, a second lookup by name, one through a cloned FileDb) share one state: a flush
+    # or sync through ANY of them - also one that has flushed before and made no update itself - must make the updates made through
+    # the others durable.  Every flush/sync is a crash point (files against the model image; copies opened at the end).
+    def handles(i):
+        g = G.G(ctx.seed, 'C03h', i)
+        kt = G.KTS[i % 5]
+        ks = g.key_universe(kt, 8)
+        lines = ['db d0 db', 'map m0 d0 %s m %s' % (kt, g.params(n=g.rng.choice([8, 64]))), 'mapclone m1 m0', 'dbclone d1 d0', 'map m2 d1 %s m default' % kt]
+        hs = ['m0', 'm1', 'm2']
+        ncp = 0
+        for rnd in range(ctx.scale(5, 12)):
+            w = g.rng.choice(hs)                       # the handle that updates
+            f = g.rng.choice([h for h in hs if h != w] if rnd % 3 else hs)      # the handle that flushes
+            lines += g.hist(kt, g.rng.randrange(1, 12), keys=ks, big=0.0, reads=0.1, mid=w)
+            op = g.rng.choice(SY + ['flush'])
+            lines += ['%s %s' % (op, f), 'dirty %s' % w, 'snap db']
+            if g.rng.random() < 0.4:
+                ncp += 1
+                lines.append('cpdir db c%d' % ncp)
+            if rnd == 1:
+                lines += ['flush m1', 'flush m2', 'flush m0', 'snap db']           # every handle has flushed once by now
+        lines += ['closeall']
+        for c in range(1, ncp + 1):
+            lines += ['db dc%d c%d' % (c, c), 'map mc%d dc%d %s m default' % (c, c, kt)] + ['get mc%d %s' % (c, G.hx(k)) for k in ks] + ['len mc%d' % c, 'closeall']
+        pair(ctx, 'handles', i, lines, stats=g.stats)
+    parallel(handles, range(ctx.scale(20, 120)))
 
 
 SCENARIOS['C03'] = scen_C03
